@@ -4,7 +4,7 @@ from ..gen.checks import GenCheck, COMMON_ASSUMPTIONS
 
 ENGINE = "dgen+refsem"
 TECHNIQUE = "runtime monitoring: random well-formed designs emitted as real Transactron objects, simulated under hostile input valuations; per-cycle oracle = independent reference semantics over sampled run/data/witness signals"
-CHECK = GenCheck("C10", ("C10:", "C11:well_formed"), {"p_forwarder": 0.5, "max_nesting": 3, "max_sb": 3, "p_same_trans_conflict": 0.3, "p_double_conflict": 0.2}, scheds=("eager",), cond=True, nontrivial_counter="designs_with_run_dependent_ready", quick=(120, 40), thorough=(8000, 60))
+CHECK = GenCheck("C10", ("C10:", "C11:well_formed"), {"p_forwarder": 0.5, "max_nesting": 3, "max_sb": 3, "p_same_trans_conflict": 0.3, "p_double_conflict": 0.2, "p_excl_order": 0.4}, scheds=("eager",), cond=True, nontrivial_counter="designs_with_run_dependent_ready", quick=(120, 40), thorough=(8000, 60))
 shards, run_shard = CHECK.shards, CHECK.run_shard
 ASSUMPTIONS = COMMON_ASSUMPTIONS
 RULE = ("[plus condition() designs of the cond profile: blocks inside plainly / conditionally called methods, nested condition(), branches calling methods with validate_arguments] random well-formed designs stressing the documented relaxations (Forwarder-style ready = state | other.run with other.schedule_before(this) on half of the bodies, nesting depth <= 3, provided methods); oracle: amaranth.hdl._ir.build_netlist on the elaborated design (Amaranth's own bit-level combinational-cycle check) raises nothing, then the design is simulated; non-trivial design = contains a run-dependent ready term; distinct = design shape signature")
